@@ -183,6 +183,9 @@ def with_index(rng, case):
     idx = rand_index(rng, n)
     if idx is not None:
         case["index"] = idx
+    # the size column's integer type: pandas' default int64 (3 in 4) or a narrower / unsigned one
+    if rng.chance(0.25):
+        case["dtype"] = rng.choice(DTYPES)
     return case
 
 
@@ -267,7 +270,21 @@ def cell(x):
     return str(x)
 
 
-def frame(vendor, rows, index=None):
+SIZE_COL = {"dominion": "Total Ballots", "hart": "Number of Ballots"}
+DTYPES = ["uint8", "uint16", "uint32", "uint64", "int8", "int16", "int32"]
+
+
+def frame(vendor, rows, index=None, dtype=None):
+    """`dtype`: the integer type of the size column when it is not pandas' default int64 (a manifest read with an
+    explicit dtype=, or downcast with pd.to_numeric(..., downcast='unsigned') to save memory); every generated size
+    fits the type."""
+    df = frame0(vendor, rows, index)
+    if dtype is not None:
+        df[SIZE_COL[vendor]] = df[SIZE_COL[vendor]].astype(dtype)
+    return df
+
+
+def frame0(vendor, rows, index=None):
     """the incoming DataFrame.  `index` = its row labels: strictly increasing non-negative labels are produced the way
     an auditor would, by building the longer raw manifest and filtering rows out with a boolean mask; any other label
     list is assigned to `.index`"""
@@ -277,9 +294,9 @@ def frame(vendor, rows, index=None):
             filler = dict(rows[0], size=0)
             it = iter(rows)
             raw = [next(it) if k in set(lab) else filler for k in range(lab[-1] + 1)]
-            df = frame(vendor, raw)
+            df = frame0(vendor, raw)
             return df[[k in set(lab) for k in range(lab[-1] + 1)]].copy()
-        df = frame(vendor, rows)
+        df = frame0(vendor, rows)
         df.index = lab
         return df
     import pandas as pd
@@ -300,24 +317,38 @@ def vendor_cls(vendor):
     return Hart
 
 
+def size_of(x, row):
+    """a batch size of the prepared frame as an int.  A size that is not written as an integer (a column that turned
+    float on the way: 3.0 / '3.0') keeps its value and is flagged in the row (`size_repr`), which the model never has"""
+    try:
+        return int(x)
+    except ValueError:
+        v = float(x)
+        if v != int(v):
+            raise
+        row["size_repr"] = str(x)
+        return int(v)
+
+
 def canon_frame(vendor, m):
     rows = []
     for t in m.to_dict("records"):
         if vendor == "dominion":
-            rows.append({"tab": cell(t["Tabulator Number"]), "batch": cell(t["Batch Number"]),
-                         "size": int(t["Total Ballots"]),
-                         "extra": [cell(t["VBMCart.Cart number"]), cell(t["Tray #"])]})
+            r = {"tab": cell(t["Tabulator Number"]), "batch": cell(t["Batch Number"]),
+                 "extra": [cell(t["VBMCart.Cart number"]), cell(t["Tray #"])]}
+            r["size"] = size_of(t["Total Ballots"], r)
         else:
-            rows.append({"tab": cell(t["Tabulator"]), "batch": cell(t["Batch Name"]),
-                         "size": int(t["Number of Ballots"]), "extra": [cell(t["Container"])]})
+            r = {"tab": cell(t["Tabulator"]), "batch": cell(t["Batch Name"]), "extra": [cell(t["Container"])]}
+            r["size"] = size_of(t["Number of Ballots"], r)
+        rows.append(r)
     return rows
 
 
-def do_prep(vendor, rows, max_cards, n_cvrs, index=None):
+def do_prep(vendor, rows, max_cards, n_cvrs, index=None, dtype=None):
     """-> (canonical prep result, prepared frame or None)"""
     V = vendor_cls(vendor)
     try:
-        m, mc, ph = V.prep_manifest(frame(vendor, rows, index), max_cards, n_cvrs)
+        m, mc, ph = V.prep_manifest(frame(vendor, rows, index, dtype), max_cards, n_cvrs)
     except Exception as e:  # noqa
         return {"st": "err", "err": err_kind(e)}, None
     return {"st": "ok", "rows": canon_frame(vendor, m), "cum": [int(x) for x in m["cum_cards"]],
@@ -346,12 +377,12 @@ def impl(case):
     V = vendor_cls(vendor)
     if case["kind"] == "prep":
         rows = mk_rows(vendor, case["sizes"])
-        p, _ = do_prep(vendor, rows, case["max_cards"], case["n_cvrs"], case.get("index"))
+        p, _ = do_prep(vendor, rows, case["max_cards"], case["n_cvrs"], case.get("index"), case.get("dtype"))
         if p["st"] == "ok":
             return {"st": "ok", "sizes": [r["size"] for r in p["rows"]], "manifest_cards": p["manifest_cards"],
                     "phantoms": p["phantoms"], "tabs": [r["tab"] for r in p["rows"]]}
         return p
-    p, m = do_prep(vendor, case["rows"], case["max_cards"], case["n_cvrs"], case.get("index"))
+    p, m = do_prep(vendor, case["rows"], case["max_cards"], case["n_cvrs"], case.get("index"), case.get("dtype"))
     if m is None:
         return {"st": "ok", "prep": p}
     if case["kind"] == "manifest":
@@ -447,6 +478,8 @@ def compare(case, ir, mr):
 
 def signature(case, ir):
     v = case["vendor"][0]
+    if "prep" not in ir and case["kind"] != "prep":
+        return f"{case['kind']}/{v};harness-err:{ir.get('err')}"
     if case["kind"] == "prep":
         if ir.get("st") != "ok":
             return f"prep/{v};err:{ir.get('err')}"
@@ -602,6 +635,29 @@ def oracle_c17(case, ir):
     want_ph = [cvrs[s]["id"] for s in sample if cvrs[s]["phantom"]]
     if smp["phantoms"] != want_ph or not smp["_phantoms_ok"]:
         return {"what": f"phantom manual records {smp['phantoms']}, phantom CVRs drawn {want_ph}"}
+    # where to find the card: the entry of a sampled CVR that is not a phantom must name the listed batch that holds it
+    # (Hart: that batch's tabulator; Dominion: its tabulator, cart and tray) -- never the appended phantom batch, whose
+    # cards are exactly the phantom CVRs
+    real = case["rows"]
+    by_id = {(c[idcol] if idcol is not None else c[-1]): c for c in smp["cards"]}
+    for s in sample:
+        if cvrs[s]["phantom"]:
+            continue
+        cid = cvrs[s]["id"]
+        c = by_id[cid]
+        if vendor == "hart":
+            batch = cid.split("_")[0]
+            holders = [r for r in real if str(r["batch"]) == batch]
+            where, ok = c[:2], any([str(r["tab"]), str(r["batch"])] == c[:2] for r in holders)
+        else:
+            tab, batch = cid.split("-")[:2]
+            holders = [r for r in real if (str(r["tab"]), str(r["batch"])) == (tab, batch)]
+            where, ok = c[:4], any([str(r["extra"][0]), str(r["extra"][1]), str(r["tab"]), str(r["batch"])] == c[:4]
+                                   for r in holders)
+        if holders and not ok:
+            return {"what": f"{vendor}: sampled CVR {cid} (not a phantom) is reported at {where}; the manifest lists its "
+                            f"batch as {[(r['tab'], r['batch'], r['extra']) for r in holders]}"
+                            + (" -- 'phantom' is the appended phantom batch" if "phantom" in where else "")}
     return None
 
 
